@@ -215,3 +215,64 @@ def replay_file(path: str) -> int:
     i = o.find("<<")
     print(o[i:i + 3000])
     return 0 if v[1][0] == "ok" else 1
+
+
+# ----------------------------------------------------------------------------- C15: scoped switches
+def check_C15(tier: str, seed: int) -> int:
+    from . import ctx
+
+    out = core.Outcome("C15", tier, seed, "model_checking")
+    quick = tier == "quick"
+    spec = os.path.join(tlc.SPEC, "Context.tla")
+    try:
+        # (1) design: exhaustive over all well-nested sequences (contexts / decorators / raising exits / turn_*)
+        info, o, violated = core.design_run(out, spec, os.path.join(tlc.SPEC, "Context_mc.cfg"), workers=16,
+                                            label="Context exhaustive (depth 7)")
+        if violated:
+            out.machinery("Context.tla: a design property is violated - the mechanism spec itself is wrong: " + o[-800:])
+        out.coverage["states"] = out.coverage.get("states", 0) + (info["distinct_states"] or 0)
+        out.coverage["transitions"] = out.coverage.get("transitions", 0) + (info["states_generated"] or 0)
+        # (2) spec -> code: every behaviour of length MaxLen replayed with real `with` blocks / decorators / raises
+        import tempfile, shutil
+
+        scratch = tempfile.mkdtemp(prefix="verif-ctx-")
+        try:
+            cfg = os.path.join(scratch, "Context_emit.cfg")
+            with open(cfg, "w") as f:
+                f.write(f"SPECIFICATION Spec\nCONSTANTS\n  MaxLen = {5 if quick else 7}\n  MaxDepth = {4 if quick else 5}\n"
+                        "  EmitHist = TRUE\nINVARIANT DepthConsistent\nINVARIANT Emit\nPROPERTY ScopedRestore\nCHECK_DEADLOCK FALSE\n")
+            rc, o2, wall = tlc.run_tlc(spec, cfg, workers=1, timeout=3000, heap="8g")
+        finally:
+            shutil.rmtree(scratch, ignore_errors=True)
+        behs, bad = replay.parse_behaviours(o2)
+        st2 = tlc.parse_stats(o2)
+        if rc != 0 or bad or not behs:
+            out.machinery(f"Context emission failed rc={rc} bad={bad} n={len(behs)}: {o2[-600:]}")
+        nbad = 0
+        for b in behs:
+            r = ctx.compare(b)
+            if r is not None:
+                nbad += 1
+                line, what, pred, obs = r
+                out.violation({"kind": "context-replay", "events": [e["ev"] for e in b], "failing_event": line,
+                               "predicted_track_guard": pred, "observed_track_guard": obs},
+                              f"scoped switches: after event {line} the spec predicts (track, guard)={pred}, the code has {obs}")
+        out.judged += len(behs)
+        out.coverage["behaviours_replayed"] = len(behs)
+        out.coverage["behaviours_agreeing"] = len(behs) - nbad
+        out.coverage["replay_stages"] = [{"spec": "Context.tla", "behaviours": len(behs), "max_len": 5 if quick else 7,
+                                          "mode": "exhaustive", "agree": len(behs) - nbad}]
+        if st2:
+            out.coverage["states"] += st2["distinct"]
+            out.coverage["transitions"] += st2["generated"]
+        if behs:
+            out.add_sample({"kind": "replayed_context_behaviour", "events": [e["ev"] for e in behs[len(behs) // 2]]})
+        # (3) code -> spec: programs run inside random nestings of the scopes, validated against Ref.tla
+        stage_traces(out, profile="c15", n=500 if quick else 15000,
+                     clauses=["val", "sh", "const", "share", "base", "cr", "grad", "track", "np_share"])
+    except tlc.MachineryError as e:
+        out.machinery(str(e)[:3000])
+    out.assumptions += ["scopes are exited in LIFO order (with-statements / decorators); turn_memory_guarding_* only outside scopes"]
+    return finish_model_checking(
+        out, "Context.tla: exhaustive state graph to nesting depth 7; every behaviour of the stated length is replayed with "
+             "real with-blocks/decorators/raising bodies; plus random programs inside scopes validated against Ref.tla")
